@@ -134,7 +134,11 @@ class SimNode:
         self.mempool = []
         for src in included_sources:
             self.acct_epoch[src] = self.acct_epoch.get(src, 0) + 1
-        ts = max(self.sim.unix(), prev['timestamp'] + 1)
+        if self.cfg.get('logical_timestamps'):
+            # the chain keeps its own time: block timestamps do not depend on how much (virtual) time the client under test has spent
+            ts = prev['timestamp'] + max(1, int(self.block_delay_s))
+        else:
+            ts = max(self.sim.unix(), prev['timestamp'] + 1)
         blk = {
             'level': level,
             'hash': oc.block_hash(b'blk%d/%d' % (level, self.cfg.get('fork', 0))),
